@@ -6,6 +6,8 @@ two spellings of the same code:
 * `if not C: A else: B`  ->  `if C: B else: A`      (only when both branches exist)
 * `x = E; return x`      ->  `return E`              (x a plain name that occurs nowhere else in the function)
 * `if a: if b: X`        ->  `if a and b: X`         (no else on either)
+* tests of if / while / assert / conditional expressions are put into negation normal form (De Morgan, `not not`,
+  `not a in b` -> `a not in b`, `not a is b` -> `a is not b`)
 * `if c: ..return/raise else: R`  ->  `if c: ..return/raise` followed by R
 
 Positions are kept (copy_location), so reports still name the right line.
@@ -15,13 +17,44 @@ from __future__ import annotations
 import ast
 
 
+def _nnf(e: ast.expr, neg: bool = False) -> ast.expr:
+    """negation normal form of an expression used for its truth value: `not` is pushed through and / or / not and
+    the membership / identity comparisons (the only comparisons whose negation is an operator of the same protocol)"""
+    if isinstance(e, ast.UnaryOp) and isinstance(e.op, ast.Not):
+        return _nnf(e.operand, not neg)
+    if isinstance(e, ast.BoolOp):
+        op = e.op if not neg else (ast.Or() if isinstance(e.op, ast.And) else ast.And())
+        return ast.copy_location(ast.BoolOp(op=op, values=[_nnf(v, neg) for v in e.values]), e)
+    if neg and isinstance(e, ast.Compare) and len(e.ops) == 1 and isinstance(e.ops[0], (ast.In, ast.NotIn, ast.Is, ast.IsNot)):
+        swap = {ast.In: ast.NotIn, ast.NotIn: ast.In, ast.Is: ast.IsNot, ast.IsNot: ast.Is}[type(e.ops[0])]
+        return ast.copy_location(ast.Compare(left=e.left, ops=[swap()], comparators=e.comparators), e)
+    return ast.copy_location(ast.UnaryOp(op=ast.Not(), operand=e), e) if neg else e
+
+
 class _Canon(ast.NodeTransformer):
+    def visit_While(self, node: ast.While):
+        self.generic_visit(node)
+        node.test = _nnf(node.test)
+        return node
+
+    def visit_Assert(self, node: ast.Assert):
+        self.generic_visit(node)
+        node.test = _nnf(node.test)
+        return node
+
+    def visit_IfExp(self, node: ast.IfExp):
+        self.generic_visit(node)
+        node.test = _nnf(node.test)
+        return node
+
     def visit_If(self, node: ast.If):
         self.generic_visit(node)
+        node.test = _nnf(node.test)
         ends = lambda b: bool(b) and isinstance(b[-1], (ast.Return, ast.Raise))
         # (an `if not c: ...return` keeps its polarity: its else branch is hoisted instead)
-        while node.orelse and isinstance(node.test, ast.UnaryOp) and isinstance(node.test.op, ast.Not) and not ends(node.body):
-            new = ast.If(test=node.test.operand, body=node.orelse, orelse=node.body)
+        negative = lambda t: (isinstance(t, ast.UnaryOp) and isinstance(t.op, ast.Not)) or (isinstance(t, ast.Compare) and len(t.ops) == 1 and isinstance(t.ops[0], (ast.IsNot, ast.NotIn)))
+        while node.orelse and negative(node.test) and not ends(node.body):
+            new = ast.If(test=_nnf(node.test, True), body=node.orelse, orelse=node.body)
             node = ast.copy_location(new, node)
         # `if a: if b: X` (no else anywhere) is `if a and b: X`
         while not node.orelse and len(node.body) == 1 and isinstance(node.body[0], ast.If) and not node.body[0].orelse:
